@@ -24,6 +24,7 @@ import LogosModel.IgnoreGroup
 import LogosModel.Assemble
 import LogosModel.LogosItems
 import LogosModel.Generics
+import LogosModel.TypeSubst
 import LogosModel.Utf8Enc
 import LogosModel.Look.Utf8ClosedC
 import Std.Data.HashMap
@@ -643,6 +644,63 @@ def genericsAnswer (args : List String) : String :=
     s!"src={TypeItems.sourceLt s} bounds={",".intercalate (TypeItems.bounds s)} generics={",".intercalate ga} errs={s.errs} herrs={TypeItems.headerErrs s}"
   | _ => "BADQ"
 
+/-! ## C19: substitution of concrete types (TypeSubst) -/
+
+/-- a type in prefix notation: `p<i>` a parameter, `c<name>/<k>` a constructor with `k` kids -/
+def parseRTy : Nat → List String → Option (TypeSubst.RTy × List String)
+  | 0, _ => none
+  | _, [] => none
+  | fuel + 1, t :: rest =>
+    if t.startsWith "p" then some (.param (t.drop 1).toString.toNat!, rest)
+    else match (t.drop 1).toString.splitOn "/" with
+      | [name, k] =>
+        let rec kids (n : Nat) (toks : List String) : Option (TypeSubst.RTys × List String) :=
+          match n with
+          | 0 => some (.nil, toks)
+          | n + 1 => match parseRTy fuel toks with
+            | none => none
+            | some (t, toks') => match kids n toks' with
+              | none => none
+              | some (ts, toks'') => some (.cons t ts, toks'')
+        match kids k.toNat! rest with
+        | some (ks, rest') => some (.con name ks, rest')
+        | none => none
+      | _ => none
+
+mutual
+def showRTy : TypeSubst.RTy → List String
+  | .param i => [s!"p{i}"]
+  | .con n ks => let r := showRTys ks; s!"c{n}/{r.1}" :: r.2
+def showRTys : TypeSubst.RTys → Nat × List String
+  | .nil => (0, [])
+  | .cons t ts => let r := showRTys ts; (r.1 + 1, showRTy t ++ r.2)
+end
+
+/-- "TYSUBST <entry> ; <entry> ... # <field> ; <field> ..." with an entry `-` (no item) or a type in prefix notation -/
+def tysubstAnswer (args : List String) : String :=
+  let joined := " ".intercalate args
+  match joined.splitOn " # " with
+  | [envS, fieldsS] =>
+    let parse := fun (x : String) =>
+      let toks := (x.splitOn " ").filter (· != "")
+      if toks == ["-"] then some none
+      else match parseRTy 64 toks with
+        | some (t, []) => some (some t)
+        | _ => none
+    let envO := (envS.splitOn " ; ").map parse
+    let fieldsO := (fieldsS.splitOn " ; ").map parse
+    if envO.any (·.isNone) || fieldsO.any (·.isNone) then "BADQ" else
+    let env : TypeSubst.Env := envO.map fun x => x.getD none
+    let cyc := (List.range env.length).filter fun i => TypeSubst.cyclic (TypeSubst.ment env) i
+    let env' := TypeSubst.reject env
+    let outs := fieldsO.map fun f => match f with
+      | some (some t) => match TypeSubst.getType env' t with
+        | some r => " ".intercalate (showRTy r)
+        | none => "NOFUEL"
+      | _ => "BAD"
+    s!"cyc={",".intercalate (cyc.map toString)} types={" ; ".intercalate outs}"
+  | _ => "BADQ"
+
 /-! ## C15 / C05: library-level models -/
 
 def bumpAnswer (mode hexsrc st en n : String) : String :=
@@ -868,6 +926,9 @@ partial def run (h : IO.FS.Stream) (out : IO.FS.Stream) (cur : Case) (tbl : Std.
     run h out cur tbl
   | "Q" :: "IGNOREGRP" :: toks =>
     out.putStrLn s!"{cur.name} IGNOREGRP {" ".intercalate toks} : {ignoreGrpAnswer toks}"
+    run h out cur tbl
+  | "Q" :: "TYSUBST" :: args =>
+    out.putStrLn s!"{cur.name} TYSUBST {" ".intercalate args} : {tysubstAnswer args}"
     run h out cur tbl
   | "Q" :: "GENERICS" :: args =>
     out.putStrLn s!"{cur.name} GENERICS {" ".intercalate args} : {genericsAnswer args}"
